@@ -257,6 +257,8 @@ class fsIndex:
             try:
                 smallest_suffix = tree.minKey(key[6:])
             except ValueError:  # 'empty tree' (no suffix >= arg)
+                if smallest_prefix == b'\xff' * 6:
+                    raise  # there is no larger prefix (it would wrap)
                 next_prefix = prefix_plus_one(smallest_prefix)
                 smallest_prefix = self._data.minKey(next_prefix)
                 tree = self._data[smallest_prefix]
@@ -281,6 +283,8 @@ class fsIndex:
             try:
                 biggest_suffix = tree.maxKey(key[6:])
             except ValueError:  # 'empty tree' (no suffix <= arg)
+                if biggest_prefix == b'\0' * 6:
+                    raise  # there is no smaller prefix
                 next_prefix = prefix_minus_one(biggest_prefix)
                 biggest_prefix = self._data.maxKey(next_prefix)
                 tree = self._data[biggest_prefix]
